@@ -20,6 +20,20 @@ THEOREMS = [
     ("c11_crt_unique", "forall m1 m2 x y : Z, 1 <= m1 -> 1 <= m2 -> 0 <= x < Z.lcm m1 m2 -> 0 <= y < Z.lcm m1 m2 -> "
                        "x mod m1 = y mod m1 -> x mod m2 = y mod m2 -> x = y"),
     ("c11_model_implies_spec", "forall c : case, in_scope c -> model_check c = true -> spec_check c = true"),
+    ("c11_trace_same", "forall a b c a1 m1 a2 m2 : Z, fst (gcd_t a b) = gcd a b /\\ fst (lcm_t a b) = lcm a b /\\ "
+                       "fst (egcd_t a b c) = egcd a b c /\\ fst (crt_t a1 m1 a2 m2) = crt a1 m1 a2 m2"),
+    ("c11_fits_2_20", "forall a b c : Z, Z.abs a <= 2 ^ 20 -> Z.abs b <= 2 ^ 20 -> Z.abs c <= 2 ^ 20 -> "
+                      "Forall (fun v => Z.abs v < 2 ^ 62) (snd (gcd_t a b)) /\\ "
+                      "Forall (fun v => Z.abs v < 2 ^ 62) (snd (lcm_t a b)) /\\ "
+                      "Forall (fun v => Z.abs v < 2 ^ 62) (snd (egcd_t a b c))"),
+    ("c11_fits_2_20_crt", "forall a1 m1 a2 m2 : Z, 1 <= m1 <= 2 ^ 20 -> 1 <= m2 <= 2 ^ 20 -> 0 <= a1 < m1 -> 0 <= a2 < m2 -> "
+                          "Forall (fun v => Z.abs v < 2 ^ 62) (snd (crt_t a1 m1 a2 m2))"),
+    ("c11_fits_general", "forall M a b c : Z, 1 <= M -> Z.abs a <= M -> Z.abs b <= M -> Z.abs c <= M -> "
+                         "Forall (fun v => Z.abs v <= M) (snd (gcd_t a b)) /\\ "
+                         "Forall (fun v => Z.abs v <= M * M) (snd (lcm_t a b)) /\\ "
+                         "Forall (fun v => Z.abs v <= M * M) (snd (egcd_t a b c))"),
+    ("c11_fits_general_crt", "forall M a1 m1 a2 m2 : Z, 1 <= m1 <= M -> 1 <= m2 <= M -> 0 <= a1 < m1 -> 0 <= a2 < m2 -> "
+                             "Forall (fun v => Z.abs v <= M * M + M) (snd (crt_t a1 m1 a2 m2))"),
 ]
 RULE = ("exhaustive cube |a|,|b|,|c| <= K (K=6 quick, 12 thorough) for gcd/lcm/egcd, all (m1,m2) <= K with all reduced "
         "residues for crt, plus boundary-biased samples up to 2^20 (zeros, negatives, equal operands, multiples, "
